@@ -26,14 +26,15 @@ type Obligation struct {
 	Note    string
 	Cover   bool // a reachability (cover) query: expected SAT
 	// filled by the solver stage
-	Result   string
-	Solver   string
-	Time     float64
-	Model    string
-	Script   string
-	ModelVar map[string]string // names worth reading from the model -> description
-	vc       *VC
+	Result    string
+	Solver    string
+	Time      float64
+	Model     string
+	Script    string
+	ModelVar  map[string]string // names worth reading from the model -> description
+	vc        *VC
 	goalFirst bool
+	Props     []string // clause-level property tags (nil: every property of the function)
 	PCParts   []string // disjuncts of PC (paths), tried one by one when the whole is not decided
 	Extra     []string // declarations of the Skolem constants of the goal
 }
@@ -60,8 +61,9 @@ type VC struct {
 	defTerm    map[string]string // name -> defining term (macros)
 	assumed    map[string]bool   // assumptions already emitted
 	qfacts     []qfact           // quantified assumptions, for explicit instantiation at Skolem constants
+	boolNames  map[string]bool   // declared Bool constants
 	boolDef    map[string]string // definitions of named Bool terms (reach conditions)
-	written    map[string]bool // heap maps written somewhere in this function (incl. inlined callees, callee frames)
+	written    map[string]bool   // heap maps written somewhere in this function (incl. inlined callees, callee frames)
 	noDef      int
 	ufs        map[string][2]interface{}
 	modelTerms []modelTerm
@@ -71,7 +73,7 @@ type VC struct {
 func newVC(e *Engine, fnName string) *VC {
 	vc := &VC{e: e, fnName: fnName, strIDs: map[string]int{}, heapSort: map[string]string{}, declared: map[string]bool{},
 		typeIDs: map[string]int{}, modelVar: map[string]string{}, counters: map[string]int{}, usedExt: map[string]bool{},
-		globals: map[*ssa.Global]string{}, specDecl: map[string]bool{}, written: map[string]bool{}, boolDef: map[string]string{}, defined: map[string]string{}, assumed: map[string]bool{}, defTerm: map[string]string{}}
+		globals: map[*ssa.Global]string{}, specDecl: map[string]bool{}, written: map[string]bool{}, boolDef: map[string]string{}, defined: map[string]string{}, assumed: map[string]bool{}, defTerm: map[string]string{}, boolNames: map[string]bool{}}
 	vc.decls = append(vc.decls,
 		"(declare-sort Float 0)",
 		"(declare-fun float_zero () Float)",
@@ -103,6 +105,9 @@ func sanitizeSym(s string) string {
 // declare a fresh constant
 func (vc *VC) declare(prefix, sort string) string {
 	n := vc.fresh(prefix)
+	if sort == "Bool" {
+		vc.boolNames[n] = true
+	}
 	vc.decls = append(vc.decls, fmt.Sprintf("(declare-fun %s () %s)", n, sort))
 	return n
 }
@@ -156,6 +161,14 @@ func (vc *VC) define(prefix, sort, term string) string {
 // assume fact under reach condition pc
 func (vc *VC) assume(pc, fact string) {
 	if fact == "true" || vc.noDef > 0 {
+		return
+	}
+	// conjunctions are asserted conjunct by conjunct (keeps the quantifier-free
+	// parts usable when quantified assumptions are set aside)
+	if strings.HasPrefix(fact, "(and ") {
+		for _, a := range sexprArgs(fact) {
+			vc.assume(pc, a)
+		}
 		return
 	}
 	var line string
@@ -272,6 +285,7 @@ func (vc *VC) oblige(kind, pc, goal, note string) *Obligation {
 			sorts = append(sorts, strings.TrimSuffix(strings.Join(f[3:], " "), ")"))
 		}
 		extra = append(extra, vc.instancesFor(sks, sorts, len(vc.decls))...)
+		extra = append(extra, vc.instancesByMatching(sg, extra, sks, len(vc.decls))...)
 	}
 	o := &Obligation{Name: vc.fnName + "#" + name, Func: vc.fnName, Kind: name, NDecl: len(vc.decls), PC: pc, PCParts: parts, Goal: sg, Extra: extra, Mode: vc.e.ar.mode, Note: note, vc: vc}
 	vc.obligs = append(vc.obligs, o)
@@ -374,6 +388,21 @@ func (vc *VC) cover(kind, pc string) {
 // the real code (a refutation is trusted only if the replay confirms it).
 func (o *Obligation) relaxedScript() string {
 	full := o.script(true)
+	var b strings.Builder
+	for _, ln := range strings.Split(full, "\n") {
+		if strings.HasPrefix(ln, "(assert ") && !strings.HasPrefix(ln, "(assert (not ") && (strings.Contains(ln, "(forall ") || strings.Contains(ln, "(exists ")) {
+			continue
+		}
+		b.WriteString(ln)
+		b.WriteByte('\n')
+	}
+	return b.String()
+}
+
+// groundScript: the query without any quantified assumption (explicit instances
+// stay). Sound for unsat answers only.
+func (o *Obligation) groundScript() string {
+	full := o.script(false)
 	var b strings.Builder
 	for _, ln := range strings.Split(full, "\n") {
 		if strings.HasPrefix(ln, "(assert ") && !strings.HasPrefix(ln, "(assert (not ") && (strings.Contains(ln, "(forall ") || strings.Contains(ln, "(exists ")) {
@@ -890,4 +919,244 @@ func (vc *VC) patternSafe(t string, depth int) bool {
 		}
 	}
 	return true
+}
+
+// instancesAtIndexTerms instantiates the recorded quantified assumptions at the
+// index terms of array reads in the goal that mention a Skolem constant (e.g.
+// off+n+sk): these are the points at which copy/frame axioms are needed.
+func (vc *VC) instancesAtIndexTerms(goal string, sks []string, ndecl int) []string {
+	seen := map[string]bool{}
+	var terms []string
+	for i := 0; i < len(goal); i++ {
+		if !strings.HasPrefix(goal[i:], "(select ") {
+			continue
+		}
+		// parse "(select ARR IDX)"
+		d := 0
+		j := i
+		for ; j < len(goal); j++ {
+			if goal[j] == '(' {
+				d++
+			} else if goal[j] == ')' {
+				d--
+				if d == 0 {
+					break
+				}
+			}
+		}
+		if j >= len(goal) {
+			break
+		}
+		args := sexprArgs(goal[i : j+1])
+		if len(args) != 2 {
+			continue
+		}
+		idx := args[1]
+		if seen[idx] || len(idx) > 400 || strings.Contains(idx, "(select ") {
+			continue
+		}
+		has := false
+		for _, sk := range sks {
+			if containsTok(idx, sk) {
+				has = true
+			}
+		}
+		if !has {
+			continue
+		}
+		skip := false
+		for _, sk := range sks {
+			if idx == sk {
+				skip = true // already covered by instancesFor
+			}
+		}
+		if skip {
+			continue
+		}
+		seen[idx] = true
+		terms = append(terms, idx)
+		if len(terms) >= 6 {
+			break
+		}
+	}
+	var out []string
+	for _, t := range terms {
+		for _, qf := range vc.qfacts {
+			if qf.declIdx > ndecl || qf.sort != "Int" {
+				continue
+			}
+			if len(out) >= 120 {
+				return out
+			}
+			out = append(out, fmt.Sprintf("(assert %s)", implies(qf.guard, replaceToken(qf.body, qf.q, t))))
+		}
+	}
+	return out
+}
+
+func containsTok(s, tok string) bool {
+	for i := 0; i+len(tok) <= len(s); i++ {
+		if s[i:i+len(tok)] == tok {
+			before := i == 0 || s[i-1] == ' ' || s[i-1] == '('
+			after := i+len(tok) == len(s) || s[i+len(tok)] == ' ' || s[i+len(tok)] == ')'
+			if before && after {
+				return true
+			}
+		}
+	}
+	return false
+}
+
+// ---- explicit E-matching for array reads ---------------------------------------------
+//
+// For each quantified assumption, the index expressions of its array reads that
+// mention the bound variable are templates (q, (+ A q), (+ q A)). Ground reads
+// (from the goal, then from the instances produced so far) whose index has the
+// same shape yield an instance. A few rounds emulate the chains the solver's own
+// matching would follow, without leaving it to the solver's heuristics.
+
+type selTerm struct{ arr, idx string }
+
+func selectsOf(text string, max int) []selTerm {
+	var out []selTerm
+	for i := 0; i < len(text) && len(out) < max; i++ {
+		if !strings.HasPrefix(text[i:], "(select ") {
+			continue
+		}
+		d := 0
+		j := i
+		for ; j < len(text); j++ {
+			if text[j] == '(' {
+				d++
+			} else if text[j] == ')' {
+				d--
+				if d == 0 {
+					break
+				}
+			}
+		}
+		if j >= len(text) {
+			break
+		}
+		args := sexprArgs(text[i : j+1])
+		if len(args) == 2 {
+			out = append(out, selTerm{args[0], args[1]})
+		}
+	}
+	return out
+}
+
+func (vc *VC) sameTerm(a, b string) bool {
+	if a == b {
+		return true
+	}
+	// names are abbreviations: compare through their definitions
+	for k := 0; k < 3; k++ {
+		if d, ok := vc.defTerm[a]; ok {
+			a = d
+		}
+		if d, ok := vc.defTerm[b]; ok {
+			b = d
+		}
+		if a == b {
+			return true
+		}
+	}
+	return false
+}
+
+func (vc *VC) matchIndex(tmpl, q, ground string) (string, bool) {
+	if tmpl == q {
+		return ground, true
+	}
+	if d, ok := vc.defTerm[ground]; ok && strings.HasPrefix(d, "(+ ") {
+		ground = d
+	}
+	if strings.HasPrefix(tmpl, "(+ ") && strings.HasPrefix(ground, "(+ ") {
+		ta := sexprArgs(tmpl)
+		ga := sexprArgs(ground)
+		if len(ta) == 2 && len(ga) == 2 {
+			if ta[1] == q && vc.sameTerm(ta[0], ga[0]) {
+				return ga[1], true
+			}
+			if ta[0] == q && vc.sameTerm(ta[1], ga[1]) {
+				return ga[0], true
+			}
+			// one level deeper: (+ A (+ B q)) against (+ A (+ B T))
+			if vc.sameTerm(ta[0], ga[0]) {
+				if t, ok := vc.matchIndex(ta[1], q, ga[1]); ok {
+					return t, true
+				}
+			}
+		}
+	}
+	return "", false
+}
+
+func (vc *VC) instancesByMatching(goal string, already []string, sks []string, ndecl int) []string {
+	type tmpl struct {
+		qf  int
+		idx string
+	}
+	var tmpls []tmpl
+	for k, qf := range vc.qfacts {
+		if qf.declIdx > ndecl {
+			continue
+		}
+		seen := map[string]bool{}
+		for _, st := range selectsOf(qf.body, 40) {
+			if containsTok(st.idx, qf.q) && !containsTok(st.arr, qf.q) && !strings.Contains(st.idx, "(select ") && !seen[st.idx] {
+				seen[st.idx] = true
+				tmpls = append(tmpls, tmpl{k, st.idx})
+			}
+		}
+	}
+	mentions := func(t string) bool {
+		for _, sk := range sks {
+			if containsTok(t, sk) {
+				return true
+			}
+		}
+		return false
+	}
+	done := map[string]bool{}
+	for _, a := range already {
+		done[a] = true
+	}
+	var out []string
+	frontier := []string{goal}
+	for round := 0; round < 3 && len(frontier) > 0; round++ {
+		var ground []string
+		gseen := map[string]bool{}
+		for _, text := range frontier {
+			for _, st := range selectsOf(text, 200) {
+				if mentions(st.idx) && len(st.idx) < 300 && !strings.Contains(st.idx, "(select ") && !gseen[st.idx] {
+					gseen[st.idx] = true
+					ground = append(ground, st.idx)
+				}
+			}
+		}
+		var next []string
+		for _, g := range ground {
+			for _, tp := range tmpls {
+				qf := vc.qfacts[tp.qf]
+				t, ok := vc.matchIndex(tp.idx, qf.q, g)
+				if !ok || len(t) > 300 {
+					continue
+				}
+				inst := fmt.Sprintf("(assert %s)", implies(qf.guard, replaceToken(qf.body, qf.q, t)))
+				if done[inst] {
+					continue
+				}
+				done[inst] = true
+				out = append(out, inst)
+				next = append(next, inst)
+				if len(out) >= 160 {
+					return out
+				}
+			}
+		}
+		frontier = next
+	}
+	return out
 }
